@@ -322,6 +322,20 @@ fn pair_laws(members: &[Member], sh: &util::Shard) -> Report {
                 if plain != forced {
                     rep.violation("C07/used-operands-combine-differently", format!("A + B differs when A and B were manifested before the extension: A={a}, B={bsrc}: {forced:?} vs fresh {plain:?}"), json!({"type":"pair-forced","a":a,"b":bsrc}));
                 }
+                // the same with a right operand whose top layer defines no field (per-object
+                // caches of the left operand must not be taken over)
+                for top in ["{}", "{ local l__ = 1 }", "{ assert true }"] {
+                    let forced_top = observe(
+                        &mut p,
+                        &format!("(local a__ = {a}, b__ = ({bsrc}) + {top}; local w__ = std.length(std.toString(a__)) + std.length(std.objectFieldsAll(a__)); if w__ >= 0 then a__ + b__ else null)"),
+                        &mut rep,
+                    );
+                    rep.states += 1;
+                    rep.transitions += 1;
+                    if forced_top != plain {
+                        rep.violation("C07/used-operands-combine-differently", format!("A + (B + {top}) differs from A + B when A was manifested before the extension: A={a}, B={bsrc}: {forced_top:?} vs {plain:?}"), json!({"type":"pair-forced","a":a,"b":bsrc,"top":top}));
+                    }
+                }
             }
         }
         // (v) objectRemoveKey
